@@ -745,9 +745,9 @@ class Compare:
         ka = set(da) - ign
         kb = set(db) - ign
         if ka != kb:
-            self.diff(path, 'attributes only in original %s, only in copy %s' % (sorted(ka - kb), sorted(kb - ka)),
+            self.diff(path, 'attributes only in original %s, only in copy %s' % (sorted(ka - kb, key=repr), sorted(kb - ka, key=repr)),
                       owner=cls.__name__ + '.__dict__')
-        for k in sorted(ka & kb):
+        for k in sorted(ka & kb, key=repr):
             self.cmp(da[k], db[k], '%s.%s' % (path, k), True, '%s.%s' % (cls.__name__, k))
         for c in cls.__mro__:
             for name, f in OBSERVERS.get(c.__module__ + '.' + c.__qualname__, ()):
